@@ -157,6 +157,25 @@ def gen_input(rng, family, dim, periodic, nmax=40):
                     gens.append([anchor[a] + width[a] * ((idx[a] + 0.25) / cnt[a]) for a in range(3)])
                     if bcc:
                         gens.append([anchor[a] + width[a] * ((idx[a] + (0.75 if a < dim else 0.25)) / cnt[a]) for a in range(3)])
+    elif family == "nearcoplanar":
+        # a generator with two neighbours in almost the same direction (angle theta) at almost the same distance (difference ~ theta):
+        # two large, almost coplanar adjacent faces; edges whose two planes are nearly parallel
+        c = [anchor[k] + width[k] * (0.35 + 0.3 * rng.unit()) for k in range(3)]
+        theta = rng.choice([1e-5, 1e-6, 1e-7, 1e-8, 3e-7])
+        d = 0.25 * min(width[:dim])
+        phi = 2 * math.pi * rng.unit()
+        u = [math.cos(phi), math.sin(phi) if dim >= 2 else 0.0, 0.0]
+        if dim == 1:
+            u = [1.0, 0.0, 0.0]
+        up = [math.cos(phi + theta), math.sin(phi + theta) if dim >= 2 else 0.0, 0.0]
+        if dim == 3:
+            # tilt out of the xy plane as well
+            t2 = 0.3
+            u = [u[0] * math.cos(t2), u[1] * math.cos(t2), math.sin(t2)]
+            up = [up[0] * math.cos(t2), up[1] * math.cos(t2), math.sin(t2)]
+        d2 = d * (1.0 + rng.uniform(-1, 1) * theta)
+        gens = [c, [c[k] + d * u[k] for k in range(3)], [c[k] + d2 * up[k] for k in range(3)]]
+        gens += [rnd_pt() for _ in range(rng.range(2, 6))]
     elif family == "faroffset":
         # box far from the origin: offset 1e4 .. 3e6 widths, mixed signs (sums over absolute coordinates lose everything here;
         # differences first is what keeps the results "up to rounding" = u * offset / width)
